@@ -22,6 +22,11 @@
 //              ways, every value 0..n resp. every complaint triple inserted before every own broadcast.
 //     |F| = 2: (n=7) every pair x the cross product of a reduced menu per party (pair_menu below; for the dealer based
 //              sharing only with dealers 0, 3, 6).
+//   Zero sharings (zvss, and Refresh of cdkg) additionally get a Byzantine dealer Z at every level: every party x
+//   {consistent sharing of a polynomial with constant term delta, non-zero commitment over zero shares, C_b0 = 1 over
+//   non-zero shares} x delta in {1, q-1, 42}; (7,2): every pair of colluding dealers with constant terms 1 and q-1.
+//   Such a dealer must not be qualified (cdkg.zvss/nonzero-dealer-qualified, zvss/constant-commitment) and the secret
+//   must stay 0 resp. unchanged with g^x = y (cdkg.zvss/secret-changed, cdkg.zvss/secret-vs-key, zvss/nonzero-secret).
 //   Schedules: round robin; thorough adds reverse round robin and a seeded pseudo-random baton order for (4,1), core menu.
 // Oracle (parent, GMP only; deviating parties are excluded, honest ones never; judged are the honest parties whose call
 //   returned true — if some honest party fails while another succeeds with a QUAL containing it, that is a violation,
@@ -98,6 +103,7 @@ template<class T> struct CgRvssLike : Proto {
 		return d[i]->Share(au, rbc, err.s, sim);
 	}
 	std::vector<int> coin_layout(int) const override { return std::vector<int>(1, 1); }
+	int zero_phase() const override { return zero ? 0 : -1; }
 	void own_z(JView &v, CanettiGennaroJareckiKrawczykRabinRVSS *o) { v.has_z = true, v.z = Mpz(o->z_i); }
 	void own_z(JView &, CanettiGennaroJareckiKrawczykRabinZVSS *) {}
 	void judge() override
@@ -172,6 +178,7 @@ struct CdkgProto : Proto {
 	}
 	std::vector<int> coin_layout(int) const override { std::vector<int> k; k.push_back(11), k.push_back(11); return k; }
 	bool rest_matters(int) const override { return true; }
+	int zero_phase() const override { return 1; }
 	void view_of(int i, JView &v, int ph)
 	{
 		v.party = i, v.ret = W->ps[i].ret[ph] == 1;
@@ -215,18 +222,34 @@ struct CdkgProto : Proto {
 		}
 		JResult r0 = judge_joint(*W, "cdkg.gen", v0, cfg.t, false);
 		dkg_qual("cdkg.gen", H, snap_qual, 0);
-		JResult r1 = judge_joint(*W, "cdkg.refresh", v1, cfg.t, false);
-		dkg_qual("cdkg.refresh", H, q1, 1);
+		// runs with a Byzantine zero-sharing dealer report under cdkg.zvss/..., all others under cdkg.refresh/...
+		bool zrun = false;
+		for (int i = 0; i < cfg.n; i++) if (W->ps[i].faulty && W->ps[i].dev.kind == 'Z') zrun = true;
+		const std::string rt = zrun ? "cdkg.zvss" : "cdkg.refresh";
+		JResult r1 = judge_joint(*W, rt, v1, cfg.t, false);
+		dkg_qual(rt, H, q1, 1);
+		// a dealer whose first commitment of the zero sharing is not 1 must not be qualified
+		for (int b = 0; b < cfg.n; b++)
+		{
+			const PartyState &pb = W->ps[b];
+			if (!(pb.faulty && pb.dev.kind == 'Z' && pb.fired && pb.dev.a != 2)) continue;
+			for (size_t a = 0; a < H.size(); a++)
+				if (v1[a].ret && std::find(q1[H[a]].begin(), q1[H[a]].end(), (size_t)b) != q1[H[a]].end())
+				{
+					W->viol(rt + "/nonzero-dealer-qualified", "party " + str(b) + " broadcast C_b0 != 1 in the zero sharing of Refresh and is in QUAL " + set_str(q1[H[a]]) + " of honest party " + str(H[a]));
+					break;
+				}
+		}
 		for (size_t a = 0; a < H.size(); a++)
 		{
 			if (!v0[a].ret || !v1[a].ret) continue;
 			if (v0[a].y != v1[a].y)
-				W->viol("cdkg.refresh/key-changed", "public key of honest party " + str(H[a]) + " changed during Refresh");
+				W->viol(rt + "/key-changed", "public key of honest party " + str(H[a]) + " changed during Refresh");
 			if (cfg.t >= 1 && v0[a].x == v1[a].x)
-				W->viol("cdkg.refresh/share-unchanged", "share x_i of honest party " + str(H[a]) + " is the same before and after Refresh");
+				W->viol(rt + "/share-unchanged", "share x_i of honest party " + str(H[a]) + " is the same before and after Refresh");
 		}
 		if (r0.have_x && r1.have_x && r0.x != r1.x)
-			W->viol("cdkg.refresh/secret-changed", "the honest shares interpolate to " + r0.x.s() + " before and " + r1.x.s() + " after Refresh");
+			W->viol(rt + "/secret-changed", "the honest shares interpolate to " + r0.x.s() + " before and " + r1.x.s() + " after Refresh");
 		// diagnosis -> the two known root causes get their own finding keys, and ONLY they:
 		//  erased       at a successful honest party the final QUAL of Generate is a proper subset of x_rvss->QUAL
 		//  requalified  at a successful honest party QUAL after Refresh (= QUAL of the zero sharing) contains a party
@@ -289,9 +312,9 @@ struct CdkgProto : Proto {
 				v.key = "cdkg.gen/erased-party-contribution";
 				v.what += "; cause: a party qualified in the sharing of x was erased from QUAL in step 3 (x_rvss QUAL " + set_str(v0[0].qual) + ", final QUAL " + set_str(snap_qual[first_ok0 >= 0 ? first_ok0 : H[0]]) + "): its contribution stays in every x_i but y leaves out its A_j";
 			}
-			else if (v.key == "cdkg.refresh/secret-vs-key" && gen_key_bad)
+			else if (v.key == rt + "/secret-vs-key" && gen_key_bad)
 				continue;       // same defect seen again after the refresh
-			else if (v.key == "cdkg.refresh/share-vs-commitments" && requalified)
+			else if (v.key == rt + "/share-vs-commitments" && requalified)
 			{
 				v.key = "cdkg.refresh/requalified-party-commitments";
 				v.what += "; cause: a party outside x_rvss->QUAL " + set_str(v1[0].qual) + " was qualified in the zero sharing (QUAL " + set_str(q1[first_ok1 >= 0 ? first_ok1 : H[0]]) + "): its zero shares were added to x_i, its commitments are not part of the verification value";
@@ -534,6 +557,9 @@ static void coin_patterns(const std::vector<int> &layout, bool rest_matters, std
 static void single_menu(const Cfg &c, int f, const Ref &ref, Proto &P, int level, int cstride, std::vector<Dev> &out)
 {
 	coin_patterns(P.coin_layout(f), P.rest_matters(f), out, level == 0);
+	if (P.zero_phase() >= 0)       // Byzantine dealer of the zero sharing: every variant x every delta, at every level
+		for (int var = 0; var < 3; var++)
+			for (int dl = 0; dl < 3; dl++) out.push_back(Dev::mk('Z', var, dl));
 	int lowest_other = f == 0 ? 1 : 0;
 	for (int r = 0; r < c.n; r++)
 	{
@@ -690,6 +716,15 @@ static void run_config(Cfg c, int level, int pair_size)
 		for (size_t k = 0; k < menu.size(); k++)
 			one(std::vector<std::pair<int, Dev> >(1, std::make_pair(f, menu[k])));
 	}
+	// zero sharings: every pair of colluding Byzantine dealers whose constant terms 1 and q-1 cancel
+	if (c.t >= 2 && P0->zero_phase() >= 0)
+		for (int f = 0; f < c.n; f++)
+			for (int g = f + 1; g < c.n; g++)
+			{
+				std::vector<std::pair<int, Dev> > fl;
+				fl.push_back(std::make_pair(f, Dev::mk('Z', 0, 0))), fl.push_back(std::make_pair(g, Dev::mk('Z', 0, 1)));
+				one(fl);
+			}
 	// dealer based sharing: pairs for the dealers 0, n/2, n-1 only (stated cap)
 	if (c.t >= 2 && (c.dealer < 0 || c.dealer == 0 || c.dealer == c.n / 2 || c.dealer == c.n - 1))
 		for (int f = 0; f < c.n; f++)
